@@ -236,6 +236,9 @@ impl Part for LoadedPart {
         p.timers_weight = 40;
         p.max_len = 60;
         p.packet_resize = true;
+        // inbound datagrams ending in a zero-length item (a third of the generated handlers would accept an
+        // empty slice): nothing of the sort may ever be queued and re-emitted
+        p.empty_items = 1;
         let mut sp = SetupProfile::default();
         sp.codecs = ALL_CODECS.to_vec();
         sp.packet = vec![(6, 130), (6, 130), (130, 1500), (1500, 65_536)];
@@ -420,7 +423,7 @@ pub fn exec_traffic(c: &TrafficCase, out: &mut CaseOut) -> Result<(), Fail> {
     let mut kinds: std::collections::BTreeSet<&'static str> = Default::default();
     let mut tight = 0u64;
     let mut check = |sim: &Sim, info: &StepInfo| -> Result<(), Fail> {
-        crate::cluster::panic_or_err(info, "C07", true)?;
+        crate::cluster::panic_or_err(sim, info, "C07", true)?;
         // a delivered datagram emitted by a correct peer must never be a decode / framing / size error
         if let (Some(_), Some((k, msg))) = (&info.delivered_bytes, &info.err) {
             ensure!(
@@ -533,7 +536,7 @@ pub fn run(ctx: &Ctx, report: &mut Report) -> EvidenceMeta {
     ctx.run_part(&LoadedPart, report);
     EvidenceMeta {
         level: "exploration",
-        rule: "every datagram handed to the runtime in (1) a scripted emission of every message kind (API sends, probe timers, replies to Ping/PingReq/IndirectPing/IndirectAck/Announce, TurnUndead to a Down sender, refutation, renewal, leave) repeated for each max_packet_size from 4 bytes upward one byte at a time (through header + several members + several items), 5 backlog loads and 4 codecs (FixCodec, VarCodec, bundled postcard, bundled bincode); (3) every datagram of simulated clusters of 3..9 members (joins, a crash, a graceful leave, a partition and its healing; 4 codecs; packet sizes 40..400 and 1400) judged by the same grammar/size/src/dst/Feed rules and by the real receiver's result; (2) proptest random histories preloaded with 0..300 members, pending updates and 0..12 custom items of 2..400 bytes at packet sizes 6..65535 incl. set_config packet-size changes. Oracle: an independent grammar parser (header, [u16 count, exactly count members], {u16 len, len>0 bytes}*, nothing else; Announce/TurnUndead header only; Broadcast without member section; a piggybacking kind may omit the count only when <= 2 bytes are free after the header), len <= max_packet_size, header.src = identity at send time (identity chain), src_incarnation within the sender's incarnation during the call, header.dst = the identity handed to send_to, Feed members = active records of the sender other than receiver and sender without duplicates; then a fresh peer with identity dst, same codec and packet size must not answer Decode, MalformedPacket or DataTooBig. Non-trivial: a datagram for which the pending updates + items exceeded the free space after the header (or a Feed shorter than the active set); distinct = (kind, codec, #members, #items, bytes left)."
+        rule: "(inbound datagrams of the loaded histories may end in a zero-length item and a third of the generated handlers would accept an empty slice) every datagram handed to the runtime in (1) a scripted emission of every message kind (API sends, probe timers, replies to Ping/PingReq/IndirectPing/IndirectAck/Announce, TurnUndead to a Down sender, refutation, renewal, leave) repeated for each max_packet_size from 4 bytes upward one byte at a time (through header + several members + several items), 5 backlog loads and 4 codecs (FixCodec, VarCodec, bundled postcard, bundled bincode); (3) every datagram of simulated clusters of 3..9 members (joins, a crash, a graceful leave, a partition and its healing; 4 codecs; packet sizes 40..400 and 1400) judged by the same grammar/size/src/dst/Feed rules and by the real receiver's result; (2) proptest random histories preloaded with 0..300 members, pending updates and 0..12 custom items of 2..400 bytes at packet sizes 6..65535 incl. set_config packet-size changes. Oracle: an independent grammar parser (header, [u16 count, exactly count members], {u16 len, len>0 bytes}*, nothing else; Announce/TurnUndead header only; Broadcast without member section; a piggybacking kind may omit the count only when <= 2 bytes are free after the header), len <= max_packet_size, header.src = identity at send time (identity chain), src_incarnation within the sender's incarnation during the call, header.dst = the identity handed to send_to, Feed members = active records of the sender other than receiver and sender without duplicates; then a fresh peer with identity dst, same codec and packet size must not answer Decode, MalformedPacket or DataTooBig. Non-trivial: a datagram for which the pending updates + items exceeded the free space after the header (or a Feed shorter than the active set); distinct = (kind, codec, #members, #items, bytes left)."
             .into(),
         assumptions: vec![
             "the receiving peer uses a handler that accepts every item (handler errors are not decode/malformed errors)".into(),
